@@ -231,6 +231,8 @@ func c20(c *Ctx) {
 
 	w.noUseAfter()
 	w.heldOnlyWithoutPool()
+	w.poolPlumbing()
+	w.writeErrorEndsMessage()
 	w.implicitClose()
 }
 
